@@ -272,6 +272,9 @@ func (ws *priorityWriteSchedulerRFC7540) CloseStream(streamID uint32) {
 
 	q := n.q
 	ws.queuePool.put(&q)
+	// The queue now belongs to the pool: the closed node may stay in the
+	// tree, so it must not keep referring to the pooled slices.
+	n.q = writeQueue{}
 	if ws.maxClosedNodesInTree > 0 {
 		ws.addClosedOrIdleNode(&ws.closedNodes, ws.maxClosedNodesInTree, n)
 	} else {
